@@ -31,6 +31,8 @@ package symbolizer
 
 // ---- C12: functions added by local symbolization get ids distinct from every existing id ----
 // addFunction (closure of doLocalSymbolize): maxID bounds every id in the profile, before and after.
+//@     step force_only: force ==> iter(force) || o == "force" || trimprefix(o, "demangle=") == "full" || trimprefix(o, "demangle=") == "none" || trimprefix(o, "demangle=") == "templates"
+//@     step mode_only: demanglerMode != iter(demanglerMode) ==> demanglerMode == trimprefix(o, "demangle=") && (demanglerMode == "full" || demanglerMode == "none" || demanglerMode == "templates")
 //@ func doLocalSymbolize$1 arith bv
 //@   requires f != nil && prof != nil && functions != nil && maxID < 18446744073709551615
 //@   requires bounded: forall i int :: 0 <= i && i < len(prof.Function) ==> prof.Function[i] != nil && prof.Function[i].ID <= maxID && prof.Function[i] != f
